@@ -219,7 +219,10 @@ def run(chk: Check, model):
     for k, c in kinds.items():
         chk.add("C12.reject", f"{k} rejected", c >= 1, f"no raise guarded by {k} in the generator", chk.loc(f_ep))
     for rz in raises:
-        tgt = vst if any(mentions(rz.guard, k) for k in ("advance", "scheduling")) else est
+        # which generation the rejection belongs to: the setting its guard *requires* (a later rejection also carries the negation of the
+        # earlier ones when those sit in a helper that has already returned)
+        about_node = any(flow.implies(rz.guard, a) for a in flow.bool_atoms(rz.guard, []) if mentions(a, "advance") or mentions(a, "scheduling"))
+        tgt = vst if about_node else est
         ok = bool(tgt) and rz.idx < tgt[0].idx and T.call_name(rz.term).startswith("NotImplementedError")
         chk.add("C12.reject", f"rejection precedes generation (line {rz.lineno - f_ep.lineno})", ok, "an unsupported setting must raise NotImplementedError before its vertices / edges are generated", chk.loc(f_ep, rz.node))
     # vertices come from the scan of `step` started at the node's phase
